@@ -14,7 +14,7 @@ HEADLINE = ['pairs', 'instants', 'overrun_prone_pairs', 'fresh_runs', 'continued
 
 
 def floors(tier):
-    return {'pairs': 1000, 'overrun_prone_pairs': 200, 'continued_runs': 200, 'stopped_runs': 50, 'unit_change_continuations': 60,
+    return {'pairs': 1000, 'overrun_prone_pairs': 200, 'continued_runs': 200, 'stopped_runs': 50, 'unit_change_continuations': 60, 'reset_reruns': 100,
             'set:dt_T_units': 16, 'set:nontrivial': 300}
 
 
@@ -105,6 +105,17 @@ def make_case(rng, i):
             T2 = GEN.reexpress(T2, rng.choice(SI.units('TimeInterval')))
         sched.append({'op': 'run', 'dt': dt2, 'T': T2})
         info['n2'] = n2
+    elif kind == 5:
+        info['kind'] = 'reset-rerun'
+        m2, e2 = rng.randint(1, 99), rng.randint(0, 4)
+        u2 = rng.choice(SI.units('TimeInterval'))
+        dt2 = GEN.Q('TimeInterval', float(f'{m2}e-{e2}'), u2)
+        if not (0.05 < GEN.qsi(dt2) / dt_si < 20):
+            dt2 = GEN.reexpress(GEN.Q('TimeInterval', dtv * rng.choice([2, 0.5, 3]), udt), u2)
+        n2 = rng.randint(2, 80)
+        sched += [{'op': 'reset'}, {'op': 'reapply'}] + ([{'op': 'newsolver'}] if rng.random() < 0.5 else []) + \
+                 [{'op': 'run', 'dt': dt2, 'T': GEN.Q('TimeInterval', float(Decimal(repr(dt2['v'])) * n2), dt2['u'])}]
+        info['n2'] = n2
     elif kind == 4:
         info['kind'] = 'stopped'
         # stop when the gear has turned far enough: somewhere inside the run
@@ -177,6 +188,11 @@ def one(ctx, i):
         ctx.count('overrun_prone_pairs')
     if info.get('unit_change'):
         ctx.count('unit_change_continuations')
+    if info['kind'] == 'reset-rerun':
+        ctx.count('reset_reruns')
+        if b.captures:
+            # the history before the reset is judged too (its runs were captured)
+            pass
     ok = check_axis(ctx, spec, info, b, runs, case)
     if ok and info['e'] > 0 and info['m'] % 10:
         ctx.seen('nontrivial', f"{info['m']}e-{info['e']}x{info['n']}|{d0['dt']['u']}{d0['T']['u']}|{info['form']}|{info['kind']}")
